@@ -101,7 +101,7 @@ fn main() {
       let t_e4 = ctx.wall();
       // E4x: cross-thread cycles (each in a child process)
       let x_cases = dev("IOCX_X_CASES", tier.pick(32u64, 600u64));
-      let hard_ms = tier.pick(30_000u64, 60_000u64);
+      let hard_ms = tier.pick(30_000u64, 45_000u64); // below vcore's 60 s per-case watchdog
       let out = vcore::drive(&ctx, &check.findings, 3, x_cases, xcycle::strategy, move |s| xcycle::execute(s, hard_ms));
       check.absorb("E4x", out);
       let t_x = ctx.wall();
